@@ -106,7 +106,15 @@ func liveBody(c *runner.Ctx) {
 	seedUsers(c, d, 2+c.Choose(6, "rows"))
 	tbl := d.tables["users"]
 	conn := sql.OpenDB(mconnector{d})
+	// the primary key is auto-increment or supplied by the writer (only the
+	// latter supports UpsertRow)
+	uniqueIDs := c.Choose(2, "unique-id-primary-key") == 1
 	schema := newSchema()
+	if uniqueIDs {
+		schema = sqlgen.NewSchema()
+		schema.MustRegisterType("users", sqlgen.UniqueId, User{})
+	}
+	nextID := int64(50)
 	ldb := livesql.NewLiveDB(sqlgen.NewDB(conn, schema))
 	streamer, evCh, errCh := newStreamer()
 	bl := livesql.NewBinlogForVerif(ldb, "testdb", streamer)
@@ -375,16 +383,30 @@ func liveBody(c *runner.Ctx) {
 		case "multi-insert":
 			u2, u3 := *u, *u
 			u.Id, u2.Id, u3.Id = 0, 0, 0
+			if uniqueIDs {
+				u.Id, u2.Id, u3.Id = nextID, nextID+1, nextID+2
+				nextID += 3
+			}
 			u2.OrgId, u3.Name = 3-u.OrgId, "ab"
 			err = writer.InsertRows(context.Background(), []*User{u, &u2, &u3}, 10)
 		case "upsert":
-			_, err = writer.UpsertRow(context.Background(), u)
+			if uniqueIDs {
+				c.Probe("upsert")
+				_, err = writer.UpsertRow(context.Background(), u)
+			} else {
+				// (UpsertRow needs a writer-supplied key) a second update instead
+				err = writer.UpdateRow(context.Background(), u)
+			}
 		case "update":
 			err = writer.UpdateRow(context.Background(), u)
 		case "delete":
 			err = writer.DeleteRow(context.Background(), u)
 		case "insert":
 			u.Id = 0
+			if uniqueIDs {
+				u.Id = nextID
+				nextID++
+			}
 			_, err = writer.InsertRow(context.Background(), u)
 		}
 		desc = append(desc, fmt.Sprintf("%s(%d)", op, id))
